@@ -275,6 +275,17 @@ EQ_PAIRS = [
     ("au::root<2>(au::mag<2>())", {2: Fr(1, 2)}, "au::mag<99>() / au::mag<70>()", {3: 2, 11: 1, 2: -1, 5: -1, 7: -1}),
     ("au::mag<18446744073709551557u>()", {2 ** 64 - 59: 1}, "au::mag<18446744073709551558u>()", model.mag_int(2 ** 64 - 58)),
     ("au::ONE", {}, "au::mag<2>()", {2: 1}),
+    # distinct prime bases that are adjacent as doubles (all four are prime; 2^64-59 and 2^64-83 both round to 2^64,
+    # 2^63-25 and 2^63+29 both to 2^63, 2^53+5 and 2^53+17... are exact neighbours): they must stay distinct bases
+    ("au::mag<18446744073709551557u>() / au::mag<18446744073709551533u>()", {2 ** 64 - 59: 1, 2 ** 64 - 83: -1}, "au::ONE", {}),
+    ("au::mag<18446744073709551557u>() * au::mag<18446744073709551533u>()", {2 ** 64 - 59: 1, 2 ** 64 - 83: 1},
+     "au::mag<18446744073709551533u>() * au::mag<18446744073709551557u>()", {2 ** 64 - 59: 1, 2 ** 64 - 83: 1}),
+    ("au::mag<18446744073709551557u>() * au::mag<18446744073709551533u>()", {2 ** 64 - 59: 1, 2 ** 64 - 83: 1},
+     "au::pow<2>(au::mag<18446744073709551557u>())", {2 ** 64 - 59: 2}),
+    ("au::mag<9223372036854775783u>() / au::mag<9223372036854775837u>()", {2 ** 63 - 25: 1, 2 ** 63 + 29: -1}, "au::ONE", {}),
+    ("au::root<2>(au::mag<9223372036854775783u>() * au::mag<9223372036854775837u>())", {2 ** 63 - 25: Fr(1, 2), 2 ** 63 + 29: Fr(1, 2)},
+     "au::mag<9223372036854775783u>()", {2 ** 63 - 25: 1}),
+    ("au::mag<9007199254740997u>() * au::ONE", {2 ** 53 + 5: 1}, "au::mag<9007199254740997u>()", {2 ** 53 + 5: 1}),
 ]
 
 
